@@ -34,7 +34,8 @@ OutGenerate(i) ==
        CASE g.st = "illegal"     -> [ pret |-> 1, ret |-> 0, icb |-> 1 ]
          [] g.st = "refuse"      -> [ pret |-> 1, ret |-> 0, vret |-> 0, icb |-> 0 ]
          [] g.st = "fail"        -> [ pret |-> 1, ret |-> 0, vret |-> 0, icb |-> 0 ]
-         [] g.st = "unspecified" -> [ pret |-> 1, vret |-> 0, icb |-> 0 ]
+         [] g.st = "nowitness"   -> [ pret |-> 1, vret |-> 0, icb |-> 0 ]
+         [] g.st = "unspecified" -> [ pret |-> 1, icb |-> 0 ]
          [] g.st = "ok" ->
               [ pret |-> 1, ret |-> 1, icb |-> 0, sret |-> 1, sret_short |-> 0, ssize |-> Len(i.proof),
                 proof |-> SjSerialize(p.n, p.bitmap, g.data),
@@ -154,21 +155,22 @@ PickCase(c) ==
   \/ \E f \in FieldVals, pat \in 0..2, dl \in {7, 8, 39, 40, 41, 72, 73} : (pat < 2 \/ f <= 264) /\ c = << "parse", f, pat, dl >>
   \/ \E n \in PadNs, low \in 0..1 : \E pad \in 0..(2 ^ (8 - (n % 8)) - 1) : \E lm \in 0..(IF pad > 0 THEN 1 ELSE 0) : c = << "pad", n, low, pad, lm >>
   \/ \E len \in 0..3, v \in {0, 1, 255} : c = << "short", len, v >>
-  \/ \E n \in SmallInitN : \E mask \in 0..(2 ^ n - 1), nuse \in 0..(n + 1), mi \in {0, 1, 2, 7}, sd \in 0..6, al \in 0..1 :
-        c = << "init", n, mask, nuse, mi, sd, al >>
+  \/ \E n \in SmallInitN : \E mask \in 0..(2 ^ n - 1), nuse \in 0..(n + 1), mi \in {0, 1, 2, 7}, sd \in (IF Thorough THEN 0..6 ELSE {0, 1, 3, 5, 6}), al \in 0..1 :
+        (al = 0 \/ sd = 5) /\ c = << "init", n, mask, nuse, mi, sd, al >>
   \/ \E n \in MidInitN : \E mask \in { k \in {0, 1, 6, 40, 63, 128, 255} : k < 2 ^ n }, nuse \in { k \in {0, 1, 2, 3, 6, 8, 9} : k <= n + 1 }, mi \in {1, 3}, sd \in {1, 5} :
         c = << "init", n, mask, nuse, mi, sd, 0 >>
-  \/ \E n \in {128, 200, 255, 256}, mk \in 0..4 :
-        \/ \E nuse \in {0, 1, 3}, mi \in {1, 3}, sd \in {1, 2, 5} : c = << "initbig", n, mk, nuse, mi, sd >>
+  \/ \E n \in (IF Thorough THEN {128, 200, 255, 256} ELSE {200, 255, 256}), mk \in 0..4 :
+        \/ \E nuse \in {0, 1, 3}, mi \in {1, 3}, sd \in (IF Thorough THEN {1, 2, 5} ELSE {1, 5}) : c = << "initbig", n, mk, nuse, mi, sd >>
         \/ \E nuse \in { k \in {128, 255, 256, 257} : k <= n + 1 } : c = << "initbig", n, mk, nuse, 1, 1 >>
   \/ c = << "initbig", 257, 1, 3, 1, 1 >>
-  \/ \E n \in 1..6 : \E nuse \in (IF n > 4 THEN {1, 3, n} ELSE 1..n), m \in { k \in {0, 3, 5} : k < n }, sd \in (IF Thorough THEN {2, 5, 6} ELSE {5}) :
+  \/ \E n \in 1..6 : \E nuse \in (IF n > 4 THEN (IF Thorough THEN {1, 3, n} ELSE {3, n}) ELSE 1..n),
+                       m \in (IF n > 4 /\ ~Thorough THEN {n - 1} ELSE { k \in {0, 3, 5} : k < n }), sd \in (IF Thorough THEN {2, 5, 6} ELSE {5}) :
         c = << "prove", n, nuse, m, sd >>
   \/ \E n \in {255, 256}, k \in (IF Thorough THEN {1, 3, 32, 256} ELSE {1, 3}) : \E m \in { j \in {0, 254, 255} : j < n /\ k <= n } : c = << "provebig", n, k, m >>
   \/ \E kind \in 0..16 : c = << "gen", kind >>
-  \/ \E b \in 1..(IF Thorough THEN 5 ELSE 4), mut \in 0..17 : c = << "verify", b, mut >>
+  \/ \E b \in 1..(IF Thorough THEN 5 ELSE 4), mut \in 0..17 : (Thorough \/ b \in {1, 3} \/ (b = 2 /\ mut \in {0, 5, 9, 10, 13}) \/ (b = 4 /\ mut \in {0, 2, 6, 13, 15})) /\ c = << "verify", b, mut >>
   \/ \E bit \in 0..(IF Thorough THEN 791 ELSE 535) : c = << "flip", bit >>
-  \/ \E n \in {2, 3}, mut \in 0..5 : c = << "forge", n, mut >>
+  \/ \E n \in {2, 3}, mut \in 0..6 : c = << "forge", n, mut >>
 
 ExpandInit(n, matched, nuse, mi, sd, al) ==
   LET base == [ tags |-> TagList(n, matched), out |-> OutTag, nuse |-> nuse, maxiter |-> mi, seed |-> SeedOf(sd) ] IN
@@ -248,8 +250,13 @@ ExpandForge(n, mut) ==
        [] mut = 3 -> SV(pr(data), gens, gout)
        [] mut = 4 -> SV(pr(SetScalar(data, 2, Add(SjScalar(data, 2), N))), gens, gout)                     \* s + N re-encoding (second)
        [] mut = 5 -> SV(pr(SubSeq(data, 1, 31) \o << (data[32] + 1) % 256 >> \o SubSeq(data, 33, Len(data))), gens, gout)
+       \* empty selection whose e0 is the hash the degenerate (zero-member) ring would need: computable from public data
+       [] mut = 6 -> SV(SjSerialize(n, Zeros(SjBitmapLen(n)), Sha256Hash(SjMsg(pts, OutPt))), gens, gout)
 
+\* the proof whose every bit is flipped: constants (evaluated once per TLC run, not once per flip)
 FlipBase == IF Thorough THEN << 2, {0, 1}, 1 >> ELSE << 2, {1}, 1 >>
+FlipProof == HonestProof(FlipBase[1], FlipBase[2], FlipBase[3])
+FlipGens == GenBytes(InPts(FlipBase[1]))
 Expand(c) ==
   CASE c[1] = "parse" -> [ e |-> "SjParse", in |-> [ b |-> ParseString(c[2], c[3], c[4]) ] ]
     [] c[1] = "pad" -> [ e |-> "SjParse", in |-> [ b |-> PadString(c[2], c[3], c[4], c[5]) ] ]
@@ -261,7 +268,7 @@ Expand(c) ==
          SG(InitProof(n, used), GenBytes(InPts(n)), SjSerGen(OutPt), c[4], NBytes(InSec(c[4] + 1)), NBytes(OutSec))
     [] c[1] = "gen" -> ExpandGen(c[2])
     [] c[1] = "verify" -> ExpandVerify(c[2], c[3])
-    [] c[1] = "flip" -> SV(FlipBit(HonestProof(FlipBase[1], FlipBase[2], FlipBase[3]), c[2]), GenBytes(InPts(FlipBase[1])), SjSerGen(OutPt))
+    [] c[1] = "flip" -> SV(FlipBit(FlipProof, c[2]), FlipGens, SjSerGen(OutPt))
     [] c[1] = "forge" -> ExpandForge(c[2], c[3])
 
 -----------------------------------------------------------------------------
@@ -280,7 +287,7 @@ Emit == phase = "done" => EmitRecord(rec)
 \* ---- design-level model of Initialize over abstract tag lists: every n, every match pattern (position
 \* and multiplicity), every subset size, iteration limits incl. 0 and 1, several seeds
 ModelN == IF Thorough THEN 1..8 ELSE 1..6
-MSeeds == 0..(IF Thorough THEN 9 ELSE 6)
+MSeeds == IF Thorough THEN 0..9 ELSE {0, 1, 3, 5, 6}
 MInit == phase = "pick" /\ cur = << >> /\ rec = << >>
 MPick == phase = "pick" /\ phase' = "eval" /\ rec' = << >>
          /\ \E n \in ModelN : \E mask \in 0..(2 ^ n - 1), nuse \in 0..n, mi \in {0, 1, 2, 5}, sd \in MSeeds : cur' = << n, mask, nuse, mi, sd >>
